@@ -40,6 +40,7 @@ RULE += (' A third of the cases run the whole history through ONE long-lived '
          'and removed by other connections; column names that differ only '
          'in the case of a non-ASCII letter.')
 RULE += ' ' + "Round 7: a third of the min / max / sign perturbations of real columns insert +-infinity; column names #, #lines, '# of rows'."
+RULE += ' ' + 'Round 8: column names pattern, rexes, val, x, n; in half of the held-connection histories the violating row is added through the held connection and not committed.'
 ASSUMPTIONS = ['NaN reals, fractional-second datetimes, table names needing '
                'quotes and column names containing a double quote are not '
                'generated (outside what the SQLite support documents)']
